@@ -25,22 +25,23 @@ const (
 )
 
 type Val struct {
-	K   VKind
-	T   string // SMT term (scalar)
-	S   string // SMT sort (scalar)
-	Arr string // slice: (Array IDX ES)
-	Off string
-	Len string
-	ES  string
-	Fs  []*Val
-	A   *Addr
-	Fn  *ssa.Function
-	Bnd []*Val
-	GT  types.Type
-	Box *Val         // for interface values created by MakeInterface in this VC: the boxed value
-	Lit *big.Int     // untyped integer literal of a specification
-	Alt []types.Type // possible dynamic types (from typeinv / allocation); nil = unknown
-	Src string       // provenance of map/slice values loaded from a field: "Type.field"
+	K              VKind
+	T              string // SMT term (scalar)
+	S              string // SMT sort (scalar)
+	Arr            string // slice: (Array IDX ES)
+	Off            string
+	Len            string
+	ES             string
+	Fs             []*Val
+	A              *Addr
+	Fn             *ssa.Function
+	Bnd            []*Val
+	GT             types.Type
+	Box            *Val         // for interface values created by MakeInterface in this VC: the boxed value
+	Lit            *big.Int     // untyped integer literal of a specification
+	Alt            []types.Type // possible dynamic types (from typeinv / allocation); nil = unknown
+	Src            string       // provenance of map/slice values loaded from a field: "Type.field"
+	RawArr, RawOff string       // slice loaded from the heap and presented at offset 0: the backing array and offset it stands for
 	// KIter: map iteration state
 	It *iterState
 }
